@@ -94,6 +94,10 @@ class Origin:
             got = self._subscript_tag(e)
             if got:
                 return got
+            if isinstance(e.value, ast.Name) and isinstance(e.slice, ast.Constant) and isinstance(e.slice.value, int) and nid is not None:
+                ds = self.rd.at(nid, e.value.id)
+                if ds and all(d.kind == "assign" and not d.index and isinstance(d.value, ast.Attribute) and d.value.attr == "args" for d in ds):
+                    return {f"args[{e.slice.value}]"}
             return self._tags(e.value, nid, depth + 1)
         if isinstance(e, ast.Call):
             f = e.func
